@@ -147,7 +147,17 @@ func judgeSites(c *Ctx, r *R, which string) {
 			r.ok(key, s.Why)
 			continue
 		}
-		if t, ok := tri[key]; ok && t.Verdict == "safe" {
+		t, ok := tri[key]
+		if !ok {
+			// a site that moved into a new helper keeps the triage of the function it was split from
+			for _, alt := range c.triageAliases(s) {
+				if t2, ok2 := tri[alt]; ok2 {
+					t, ok, key = t2, true, alt
+					break
+				}
+			}
+		}
+		if ok && t.Verdict == "safe" {
 			used[key] = true
 			if pok, pwhy := c.checkPremises(t.Premise); !pok {
 				r.fail(key, s.Pos, fmt.Sprintf("may-panic construct %s `%s` in %s was triaged safe because: %s — but %s", s.Kind, s.Src, s.Fn, t.Reason, pwhy))
@@ -218,4 +228,31 @@ func rulePanPrefix(c *Ctx, r *R) {
 		}
 	}
 	_ = types.Typ
+}
+
+// triageAliases: for a site in a function that is not part of the vocabulary (a helper
+// extracted by a refactoring), the keys the site would have in each vocabulary function
+// that reaches the helper through new helpers only.
+func (c *Ctx) triageAliases(s *panSite) []string {
+	var out []string
+	fd := c.Func(s.Fn)
+	if fd == nil {
+		return nil
+	}
+	o := c.Info.Defs[fd.Name]
+	if o == nil || !c.isNewHelper(o) {
+		return nil
+	}
+	for _, name := range c.FuncNames() {
+		root := c.funcs[name]
+		if ro := c.Info.Defs[root.Name]; ro == nil || c.isNewHelper(ro) {
+			continue
+		}
+		for _, h := range c.withHelpers(root)[1:] {
+			if h == fd {
+				out = append(out, name+"|"+s.Kind+"|"+nosp(s.Src))
+			}
+		}
+	}
+	return out
 }
